@@ -126,7 +126,10 @@ static bool run_case(const Case& cs) {
   if (!check_layout(code, real)) return false;
   if (code.code_size() != est0) FAIL("estimate", "code_size() before flatten %llu != after %llu", (unsigned long long)est0, (unsigned long long)code.code_size());
   std::vector<uint8_t> buf;
+  // layouts beyond 16 MiB (sections with a huge virtual size): the layout is judged, the image is not materialised
+  bool huge = code.code_size() > (uint64_t(1) << 24);
   auto copies = [&]() -> bool {
+    if (huge) return true;
     uint64_t csz = code.code_size();
     uint64_t need = 0;
     for (Section* s : code.sections()) if (s->buffer_size()) need = std::max<uint64_t>(need, s->offset() + s->buffer_size());
@@ -174,6 +177,21 @@ static Case draw(xplor::Chooser& ch, int n_extra, bool with_addrtab) {
     cs.secs.push_back(s);
   }
   return cs;
+}
+
+// sections whose virtual size pushes the running offset to and beyond 4 GiB, followed by an ordinary section
+static std::vector<Case> huge_family() {
+  std::vector<Case> v;
+  const uint64_t kHuge[] = {(uint64_t(1) << 32) - 8, uint64_t(1) << 32, uint64_t(5) << 30};
+  const uint32_t kA1[] = {1, 16, 4096, 65536};
+  for (size_t tb : {size_t(3), size_t(64)}) for (uint32_t a1 : kA1) for (int32_t o1 : {0, 1}) for (size_t b1 : {size_t(0), size_t(7)}) for (uint64_t vs : kHuge)
+    for (uint32_t a2 : kAlign) for (int32_t o2 : {0, 1, 7}) for (size_t b2 : {size_t(7), size_t(64)}) for (int v2 = 0; v2 < 2; v2++) {
+      Case cs; cs.text_buf = tb; cs.addrtab = 0; cs.dirty_arena = false;
+      cs.secs.push_back(SecCfg{a1, o1, b1, vs});
+      cs.secs.push_back(SecCfg{a2, o2, b2, v2 ? uint64_t(b2 + 5) : 0});
+      v.push_back(cs);
+    }
+  return v;
 }
 
 static void report(const Case& cs, const std::string& tag) {
@@ -244,6 +262,15 @@ int main(int argc, char** argv) {
   if (!c.thorough()) plans = {{0, 99, false}, {0, 99, true}, {1, 99, false}, {1, 99, true}, {2, 4, false}, {2, 3, true}, {3, 3, false}, {4, 1, true}, {6, 1, false}, {8, 1, true}};
   else plans = {{0, 99, false}, {0, 99, true}, {1, 99, false}, {1, 99, true}, {2, 5, false}, {2, 5, true}, {3, 4, false}, {3, 4, true}, {4, 3, false}, {4, 2, true}, {6, 2, false}, {6, 2, true}, {8, 2, false}, {8, 2, true}, {12, 1, true}};
   std::string bounds;
+  {
+    std::vector<Case> hf = huge_family();
+    for (auto& cs : hf) {
+      if (!c.mine(idx++)) continue;
+      c.n("evaluations")++; c.n("huge_layout_cases")++;
+      if (!run_case(cs)) report(cs, "case");
+    }
+    bounds += "huge-virtual-size family (" + std::to_string(hf.size()) + " layouts reaching 4 GiB and beyond, layout only) ";
+  }
   for (auto& pl : plans) {
     auto st = xplor::explore_deviations(pl.bound, [&](xplor::Chooser& ch) -> bool {
       Case cs = draw(ch, pl.n_extra, pl.at);
